@@ -254,7 +254,7 @@ def gen_layer_cfg(rng, D, equivariant_domain=True, allow_stride=False, group="B"
         lhs = None
         if rng.integers(0, 4) == 0:
             lhs = [2] * D
-        pads = ["VALID", "explicit"] if even or lhs is not None else [None, "TORUS", "SAME", "VALID", "explicit", None, "TORUS", "SAME"]
+        pads = ["VALID", "explicit"] if even else ([None, "TORUS", "SAME", "VALID", "explicit", "explicit"] if lhs is not None else [None, "TORUS", "SAME", "VALID", "explicit", None, "TORUS", "SAME"])
         pk = pads[int(rng.integers(len(pads)))]
         padding = pk
         if pk == "explicit":
